@@ -9,7 +9,7 @@ one() {
   wt=/tmp/bn_$$_$id
   git -C /repo worktree add -q --detach $wt HEAD 2>/dev/null || { echo "$id: cannot create worktree"; return; }
   if git -C $wt apply /verif/benign/$id/patch.diff 2>/dev/null; then
-    out=$(ARK_REPO=$wt /verif/bin/arkcheck -property all -out /tmp/bnout_$$_$id 2>&1)
+    out=$(ARK_REPO=$wt ${ARKCHECK:-/verif/bin/arkcheck} -property all -out /tmp/bnout_$$_$id 2>&1)
     alarms=$(echo "$out" | grep -E "^(VIOLATION|UNDECIDED) property=C[0-9]*" | sed -E 's/^(VIOLATION|UNDECIDED) property=(C[0-9]*).*/\2:\1/' | sort -u | tr '\n' ' ')
     if [ -z "$alarms" ]; then echo "$id silent"; else echo "$id ALARMS: $alarms"; echo "$out" | grep -E "^\s+ecs/|^UNDECIDED" | head -${SHOW:-6} | cut -c1-330; fi
   else
